@@ -122,6 +122,15 @@ struct Net {
     sent: u64,
     delivered: u64,
     dropped_no_socket: u64,
+    /// Receive-side coalescing: at most this many equal-sized datagrams (the last may be shorter)
+    /// of one source are reported as ONE message with a stride, as a GRO-capable kernel does
+    gro_segs: usize,
+    /// Datagrams arriving at the same socket within `burst_window` of the first are handed over
+    /// together with it (interrupt coalescing of a receive-offload capable NIC)
+    burst: bool,
+    burst_window: Duration,
+    /// Shapes (segment lengths per message) of every receive batch of more than one datagram
+    batch_shapes: Vec<Vec<Vec<usize>>>,
 }
 
 #[derive(Debug, Clone, PartialEq, Eq, Hash)]
@@ -203,6 +212,10 @@ impl World {
                 sent: 0,
                 delivered: 0,
                 dropped_no_socket: 0,
+                gro_segs: 1,
+                burst: false,
+                burst_window: Duration::from_millis(4),
+                batch_shapes: Vec::new(),
             }),
             trace: Mutex::new(Vec::new()),
             stale_wakes: AtomicU64::new(0),
@@ -326,9 +339,34 @@ impl World {
                     }
                 }
             };
-            match d {
+            match &d {
                 Some(d) => self.record(Ev::Deliver { seq: d.seq, dst: d.dst, len: d.data.len(), h: hash_bytes(&d.data), at_us }),
                 None => self.record(Ev::NoSocket { seq: key }),
+            }
+            // burst mode: everything else arriving at this socket at the same instant comes with it
+            if let Some(first) = &d {
+                let more: Vec<Dgram> = {
+                    let mut n = self.net.lock().unwrap();
+                    if n.burst {
+                        let until = at + n.burst_window;
+                        let keys: Vec<(Duration, u64)> = n.inflight.range((at, 0)..=(until, u64::MAX)).filter(|(_, x)| x.dst == first.dst).map(|(k, _)| *k).collect();
+                        let mut out = vec![];
+                        for k in keys {
+                            let x = n.inflight.remove(&k).unwrap();
+                            if let Some(s) = n.socks.get_mut(&x.dst) {
+                                s.inbox.push_back(x.clone());
+                                n.delivered += 1;
+                                out.push(x);
+                            }
+                        }
+                        out
+                    } else {
+                        vec![]
+                    }
+                };
+                for x in more {
+                    self.record(Ev::Deliver { seq: x.seq, dst: x.dst, len: x.data.len(), h: hash_bytes(&x.data), at_us });
+                }
             }
             if let Some(w) = wk {
                 w.wake();
@@ -482,6 +520,21 @@ impl World {
     pub fn waker_refs(&self, id: usize) -> i64 {
         let t = self.tasks.lock().unwrap();
         Arc::strong_count(&t[id].wk) as i64 - 2
+    }
+
+    /// Receive offload emulation for the in-memory socket (see `Net::gro_segs`, `Net::burst`)
+    pub fn set_gro(&self, segs: usize, burst: bool) {
+        let mut n = self.net.lock().unwrap();
+        n.gro_segs = segs.max(1);
+        n.burst = burst;
+    }
+
+    /// Distinct shapes of receive batches that held more than one datagram
+    pub fn batch_shapes(&self) -> Vec<Vec<Vec<usize>>> {
+        let mut v = self.net.lock().unwrap().batch_shapes.clone();
+        v.sort();
+        v.dedup();
+        v
     }
 
     pub fn block_send_at(&self, call: Option<u64>) {
@@ -653,19 +706,44 @@ impl AsyncUdpSocket for VSocket {
             s.waker = Some(cx.waker().clone());
             return Poll::Pending;
         }
+        let gro = n.gro_segs;
+        let s = n.socks.get_mut(&self.addr).unwrap();
         let mut k = 0;
+        let mut shape: Vec<Vec<usize>> = vec![];
         while k < bufs.len().min(meta.len()) {
             let Some(d) = s.inbox.pop_front() else { break };
-            let len = d.data.len().min(bufs[k].len());
-            bufs[k][..len].copy_from_slice(&d.data[..len]);
+            let stride = d.data.len().min(bufs[k].len());
+            bufs[k][..stride].copy_from_slice(&d.data[..stride]);
+            let mut total = stride;
+            let mut segs = vec![stride];
+            // coalesce what a GRO-capable kernel would: same source and ECN mark, equal sizes, a
+            // shorter datagram only as the last one
+            while segs.len() < gro && stride > 0 {
+                let Some(nx) = s.inbox.front() else { break };
+                let l = nx.data.len();
+                if nx.src != d.src || nx.ecn != d.ecn || l > stride || l == 0 || total + l > bufs[k].len() {
+                    break;
+                }
+                let nx = s.inbox.pop_front().unwrap();
+                bufs[k][total..total + l].copy_from_slice(&nx.data);
+                total += l;
+                segs.push(l);
+                if l < stride {
+                    break;
+                }
+            }
             let mut m = RecvMeta::default();
             m.addr = d.src;
-            m.len = len;
-            m.stride = len;
+            m.len = total;
+            m.stride = stride;
             m.ecn = d.ecn;
             m.dst_ip = None;
             meta[k] = m;
+            shape.push(segs);
             k += 1;
+        }
+        if shape.iter().map(|x| x.len()).sum::<usize>() > 1 {
+            n.batch_shapes.push(shape);
         }
         Poll::Ready(Ok(k))
     }
@@ -675,7 +753,7 @@ impl AsyncUdpSocket for VSocket {
     }
 
     fn max_receive_segments(&self) -> usize {
-        1
+        self.world.net.lock().unwrap().gro_segs
     }
 
     fn may_fragment(&self) -> bool {
